@@ -367,17 +367,33 @@ def run(prog: Program, col: Collector, tier: str, refs: Optional[Refs] = None, c
     chains = [n for n in ast.walk(cf.node) if isinstance(n, ast.If) and isinstance(n.test, ast.Call) and norm(n.test.func) == "isinstance" and "Unary" in norm(n.test)]
     ok = False
     if chains:
-        cur = chains[0]
-        skips = []
-        while True:
-            if any(isinstance(s, ast.Continue) for s in cur.body):
-                skips.append(norm(cur.test))
-            if len(cur.orelse) == 1 and isinstance(cur.orelse[0], ast.If):
-                cur = cur.orelse[0]
+        # leaves of the if / elif / else tree with their path conditions [(test, polarity), ...]
+        leaves = []
+
+        def walk_chain(node, conds):
+            t, pos = node.test, True
+            while isinstance(t, ast.UnaryOp) and isinstance(t.op, ast.Not):
+                t, pos = t.operand, not pos
+            for body, p_ in ((node.body, pos), (node.orelse, not pos)):
+                c2 = conds + [(t, p_)]
+                if len(body) == 1 and isinstance(body[0], ast.If):
+                    walk_chain(body[0], c2)
+                else:
+                    leaves.append((c2, body))
+
+        walk_chain(chains[0], [])
+        ok = True
+        saw_raise = False
+        for conds, body in leaves:
+            if any(isinstance(s_, ast.Raise) for s_ in body):
+                saw_raise = True
                 continue
-            ok = bool(cur.orelse) and any(isinstance(s, ast.Raise) for s in cur.orelse)
-            break
-        ok = ok and all("tuple" in s and "Tuple" not in s.replace("(f, tuple)", "") or s.endswith(", tuple)") for s in skips)
+            if any(isinstance(s_, ast.Continue) for s_ in body) or not body:
+                # allowed only where the path condition says `f` is a raw tuple
+                is_tuple = any(p_ and isinstance(t, ast.Call) and norm(t.func) == "isinstance" and len(t.args) == 2 and norm(t.args[1]) == "tuple" for t, p_ in conds)
+                if not is_tuple:
+                    ok = False
+        ok = ok and saw_raise
     col.check(ok, f"{cf.fq}::else raise", "term kinds the compiler does not know end in a raise; only raw tuples are skipped",
               "a term kind is skipped (continue) or falls through without an operation being emitted: the program silently omits a node", cf.loc())
     txt = [norm(n) for n in ast.walk(tf.node) if isinstance(n, ast.If)]
